@@ -9,6 +9,18 @@
 //	C  the real command line under strace on real directories.
 //
 // The oracle is a lexical path model (model.go) that shares no code with the implementation.
+//
+// Signatures: escape|<underlying method>|<argument> (A), reject-inside|<op>, wrong-target|…,
+// wrong-content|<op>, write-read-disagree|<op>, inside-op-fails|<op> (A, inside spellings);
+// loader-escape|<import|module>|<method>, loader-decoy-loaded|…, loader-inside-broken|… (B);
+// strace-escape|…, strace-extra-outside|…, strace-decoy-loaded, cli-inside-broken (C).
+//
+// Known on the pinned tree: escape|Rename|newname — ChrootFs.Rename joins the new name under
+// the root but never range-checks it:
+//
+//	syslutil.NewChrootFs(mem, "/r").Rename("a/b.c", "../outside/victim") // nil; reaches mem.Rename("/r/a/b.c", "/outside/victim")
+//
+// The check is not loosened for it; every other escape has a different signature.
 package c18
 
 import (
@@ -53,12 +65,12 @@ func buildPlan(tier string) *tierPlan {
 	if tier == "thorough" {
 		p.nA, p.nImp, p.nMod = 7, 6, 5
 		chunkA, randA, randAN = 3000, 400, 1000
-		chunkImp, chunkMod, randB, randBN = 1000, 1000, 150, 400
+		chunkImp, chunkMod, randB, randBN = 500, 600, 150, 400
 		cCases, cRuns = 50, 10
 	} else {
 		p.nA, p.nImp, p.nMod = 5, 4, 3
 		chunkA, randA, randAN = 1000, 40, 400
-		chunkImp, chunkMod, randB, randBN = 400, 300, 15, 150
+		chunkImp, chunkMod, randB, randBN = 200, 130, 15, 150
 		cCases, cRuns = 4, 8
 	}
 	// the strace groups first: they are the slowest cases and spread over the workers
@@ -133,7 +145,7 @@ func (prop) Info() fw.Info {
 			"paths the recorder receives are interpreted like the operating system would (relative ones against the working directory)",
 			"the strace comparison treats /proc/<pid> and /task/<tid> as equal across runs",
 		},
-		CaseTimeout: 300,
+		CaseTimeout: 600,
 		SetFloors:   map[string]int{"ops": 15, "roots": 10},
 		CountFloors: map[string]int{
 			"a_wrapper_calls": 500000, "a_underlying_calls": 100000, "a_underlying_inside": 100000,
